@@ -534,6 +534,40 @@ def collect_jobs(dump_path):
     return list(entries.values()), list(rejections.values()), nstates, calls
 
 
+def extreme_scalars():
+    """Scalar multiples with factors near the ends of the floating-point range, applied to data scaled the other way: the
+    expression a * (b * A) acts as a (b (A x)), each step of which is finite - the scalars may not be combined into a product
+    that overflows or underflows.  (Outside TLC: the exact model has no floating-point range.)"""
+    sp = _sp()
+    L = sp.linop
+    out = []
+    m = np.array([1 + 2j, -0.5, 3j])
+    ops = {"Identity[3]": lambda: L.Identity([3]), "Multiply[3]": lambda: L.Multiply([3], m), "Circshift[3]": lambda: L.Circshift([3], [1])}
+    x0 = np.array([1.0 - 1j, 2.0, -0.5j])
+    with warnings.catch_warnings():
+        warnings.simplefilter("ignore")
+        for name, mk in ops.items():
+            A = mk()
+            base = np.asarray(A(x0))
+            cases = [("1e200 * (1e200 * A) on data ~1e-250", lambda: 1e200 * (1e200 * A), 1e-250, 1e150),
+                     ("(A * 1e200) * 1e200 on data ~1e-250", lambda: (A * 1e200) * 1e200, 1e-250, 1e150),
+                     ("1e-200 * (1e-200 * A) on data ~1e250", lambda: 1e-200 * (1e-200 * A), 1e250, 1e-150),
+                     ("1e-250 * (1e300 * A) on data ~1", lambda: 1e-250 * (1e300 * A), 1.0, 1e50),
+                     ("A - 1e200 * (1e150 * A) on data ~1e-300", lambda: A - 1e200 * (1e150 * A), 1e-300, None)]
+            for label, build, dscale, factor in cases:
+                try:
+                    op = build()
+                    y = np.asarray(op(x0 * dscale))
+                except Exception as e:
+                    out.append({"props": ["C03"], "key": {"kind": "extreme_scalar", "operator": name, "case": label}, "detail": "%s with %s raised %r" % (label, name, e)})
+                    continue
+                want = base * factor if factor is not None else base * 1e-300 - base * 1e50
+                if not np.all(np.isfinite(y)) or not np.allclose(y, want, rtol=1e-12, atol=0):
+                    out.append({"props": ["C03"], "key": {"kind": "extreme_scalar", "operator": name, "case": label},
+                                "detail": "%s with A = %s: got %s, the matrix expression applied step by step gives %s" % (label, name, y, want)})
+    return out
+
+
 def run(ctx):
     r = core.EngineResult("linop_algebra")
     jobs = []
@@ -596,6 +630,8 @@ def run(ctx):
                                   "operands": [api_summary(a)[:80] for a in payload["operands"]]})
         for v in res:
             r.violations.append(core.Violation(v["props"], "linop_algebra", v["key"], v["detail"], {"kind": kind, "case": payload}))
+    for v in extreme_scalars():
+        r.violations.append(core.Violation(v["props"], "linop_algebra", v["key"], v["detail"], {}))
     r.nontrivial = nontriv
     for p in ("C01", "C02", "C03", "C04"):
         r.count(p, r.traces, r.evaluations, nontriv)
